@@ -1,6 +1,7 @@
 package props
 
 import (
+	"go/token"
 	"go/types"
 	"sort"
 	"strings"
@@ -20,7 +21,7 @@ func c15(c *Ctx) {
 		"tl.DecodeUnknownObject (VTA call graph plus CHA edges for the reflection-fed tl interfaces, so every UnmarshalTL is included). Each site is " +
 		"discharged by a machine-checked side condition (dominating Kind()/len/>=0 guard, non-negative-by-construction size, comma-ok form, population " +
 		"conditions P1–P4/K/T over all registered types), accepted in triage.json with a reason, or reported."
-	r.NotDecided = []string{"total memory proportionality as a number", "recursion depth", "nil dereferences other than the two kinds R15.N and the error-path rule of the census look at"}
+	r.NotDecided = []string{"total memory proportionality as a number", "that the depth bound is small enough for the stack (a number)", "nil dereferences other than the two kinds R15.N and the error-path rule of the census look at"}
 	r.Rule("R15.C", "every panic-capable operation reachable from Decode/DecodeUnknownObject is discharged, accepted with a reason, or a finding", 30)
 	var entries []*ssa.Function
 	for _, n := range []string{"Decode", "DecodeUnknownObject"} {
@@ -34,6 +35,7 @@ func c15(c *Ctx) {
 	c.loopTermination("R15.T", fns)
 	c.readerLoops("R15.T", fns)
 	c.nilTypes("R15.N", fns, 30)
+	c.recursionGated("R15.D", fns)
 	// R15.G: decoding (and the encoding that runs beside it on other goroutines) writes no package-level state.
 	// The registry maps are filled by init(); a map, cache or counter written from inside Decode / Marshal is
 	// written by the receive goroutine and every caller at once, and an unsynchronised map write ends the
@@ -411,4 +413,110 @@ func decodedLeaves(v ssa.Value, d int, seen map[ssa.Value]bool) bool {
 		}
 	}
 	return false
+}
+
+// recursionGated (R15.D): the depth to which values are nested is chosen by the peer, and every level costs stack.
+// A depth gate is a function that counts a level (a store of depth+1 to the decoder's depth field) and compares
+// the depth with a constant.  With the gates taken out, the call graph of the decode region must have no cycle
+// left: every recursion on wire data passes a gate each time round.
+func (c *Ctx) recursionGated(rule string, fns []*ssa.Function) {
+	r := c.R
+	r.Rule(rule, "every cycle in the call graph of the decode region passes a depth gate - a function that adds one to Decoder.depth and compares the depth with a constant: the nesting a peer can impose is bounded before the stack is", 1)
+	isDepth := func(v ssa.Value) bool {
+		ld, ok := v.(*ssa.UnOp)
+		if !ok || ld.Op != token.MUL {
+			return false
+		}
+		fa, ok := ld.X.(*ssa.FieldAddr)
+		if !ok {
+			return false
+		}
+		k, _ := fieldKeyOf(fa)
+		return strings.HasSuffix(k, load.TLPkg+".Decoder.depth")
+	}
+	gate := map[*ssa.Function]bool{}
+	for _, f := range fns {
+		counts, compares := false, false
+		for _, b := range f.Blocks {
+			for _, in := range b.Instrs {
+				switch x := in.(type) {
+				case *ssa.Store:
+					fa, ok := x.Addr.(*ssa.FieldAddr)
+					if !ok {
+						continue
+					}
+					if k, _ := fieldKeyOf(fa); !strings.HasSuffix(k, load.TLPkg+".Decoder.depth") {
+						continue
+					}
+					if bo, ok := x.Val.(*ssa.BinOp); ok && bo.Op == token.ADD && isDepth(bo.X) {
+						if k, isK := an.ConstInt(bo.Y); isK && k >= 1 {
+							counts = true
+						}
+					}
+				case *ssa.If:
+					if cd, ok := an.Classify(x); ok && cd.Kind == "ord" {
+						_, kx := an.ConstInt(cd.X)
+						_, ky := an.ConstInt(cd.Y)
+						if isDepth(cd.X) && ky || isDepth(cd.Y) && kx {
+							compares = true
+						}
+					}
+				}
+			}
+		}
+		if counts && compares {
+			gate[f] = true
+		}
+	}
+	in := map[*ssa.Function]bool{}
+	for _, f := range fns {
+		in[f] = true
+	}
+	g := c.Graph()
+	// DFS for a cycle in the region minus the gates
+	state := map[*ssa.Function]int{}
+	var stack []*ssa.Function
+	var cycle []string
+	var dfs func(f *ssa.Function) bool
+	dfs = func(f *ssa.Function) bool {
+		state[f] = 1
+		stack = append(stack, f)
+		for _, h := range g.Callees(f) {
+			if !in[h] || gate[h] {
+				continue
+			}
+			if state[h] == 1 {
+				for i := len(stack) - 1; i >= 0; i-- {
+					cycle = append([]string{an.ShortName(stack[i])}, cycle...)
+					if stack[i] == h {
+						break
+					}
+				}
+				return true
+			}
+			if state[h] == 0 && dfs(h) {
+				return true
+			}
+		}
+		stack = stack[:len(stack)-1]
+		state[f] = 2
+		return false
+	}
+	found := false
+	for _, f := range fns {
+		if !gate[f] && state[f] == 0 && dfs(f) {
+			found = true
+			break
+		}
+	}
+	var gates []string
+	for f := range gate {
+		gates = append(gates, an.ShortName(f))
+	}
+	sort.Strings(gates)
+	if found {
+		r.Violate(rule, "recursion:gated", "", sprintf("a recursion of the decode region passes no depth gate: %s → (back to the first); gates found: %v. The peer chooses how deep a value is nested (rpc_result in rpc_result…, 12 bytes a level), every level is stack, and a stack overflow ends the process", strings.Join(cycle, " → "), gates))
+		return
+	}
+	r.Hold(rule, "recursion:gated", "", sprintf("%d functions in the region, depth gates %v: without them the call graph is acyclic", len(fns), gates))
 }
